@@ -134,6 +134,33 @@ func c07r1(p *Program, r *Report) {
 				"one of the two serialised writers", "the socket is written outside the two contextWriter implementations: frames of concurrent requests can interleave")
 		case "handoff":
 			_, ok := allowedHandoff[s.inFunc.Name][s.callee]
+			if !ok {
+				// the same hand-off made through / inside a private helper of an allowed construction function
+				for aname, callees := range allowedHandoff {
+					af := p.Func(aname)
+					if af == nil {
+						continue
+					}
+					units := p.unitsOf(af)
+					inUnits := func(f *FuncInfo) bool {
+						for _, u := range units[1:] {
+							if u == f && p.onlyCalledWithin(f, units) {
+								return true
+							}
+						}
+						return false
+					}
+					calleeFn := p.Func(s.callee)
+					switch {
+					case s.inFunc == af && calleeFn != nil && inUnits(calleeFn):
+						ok = true // handed to its own helper
+					case inUnits(s.inFunc):
+						if _, allowed := callees[s.callee]; allowed || calleeFn != nil && inUnits(calleeFn) {
+							ok = true
+						}
+					}
+				}
+			}
 			r.Check(ok, s.call, s.inFunc.Name+" hands the socket to "+s.callee,
 				"allowed hand-off", "the write side of the socket is handed to "+s.callee+" from "+s.inFunc.Name+": a second writer bypasses the serialisation")
 		}
